@@ -1059,8 +1059,9 @@ def cases(rng, tier):
         yield ("nmap_iter", [l, table_for(l)], "nmap_multi")
     # specs whose trailing octets are full: tens of thousands of addresses, enumerated completely (a block-size shortcut for wildcard
     # octets shows only beyond the first few hundred addresses)
+    # (every spec stays below the 70 000 addresses the adapter's _run_gen accepts: at most two full octets)
     for s in (["10.7.0-255.0-255"], ["10.7.-.-"], ["192.168.254-255.-", "10.0-1.0.0-"]) if tier == "quick" else (
-            ["10.7.0-255.0-255"], ["10.7.-.-"], ["192.168.254-255.-", "10.0-1.0.0-"], ["255.254-255.-.-"], ["0.0-1.0-255.0-255"], ["1.2,4.3-.-"]):
+            ["10.7.0-255.0-255"], ["10.7.-.-"], ["192.168.254-255.-", "10.0-1.0.0-"], ["255.255.-.-"], ["0.0.0-255.0-255"], ["1.2.3-.-", "1.4.250-.-"]):
         yield ("nmap_iter", [s, table_for(s)], "nmap_big")
     for c in pystr_cases.cases(rng, tier):
         yield c
